@@ -25,6 +25,13 @@ OBLIGATIONS = ["NiftyVerif.C01." + t for t in (
     "chainAppend_sound", "chainNullCollapse_sound", "chainPost_sound", "chainSimplifyCore_sound", "mkChainU_sound",
     "sumAbsorb_sound", "sumAbsorbDiags_sound", "sumMergeDiags_sound", "sumScalings_split", "sumProcessGroup_sound",
     "groupKeys_spec", "ssum_groups", "sumFlatten_sound", "sumSimplify_sound", "mkSumU_sound",
+    "sum_no_inverse_modes", "flip_member", "flip_sound", "invEnabler_invop_sound",
+    "mkChainU_opnd", "matmul_sound", "flip_opnd", "scale_sound", "sandwichCore_sound", "mkSandwich_sound",
+    "chainPost_pres", "mkChainU_Inv", "sumSimplify_pres", "mkSumU_Inv", "flip_Inv", "adjointOf_sound",
+    "sandwichCore_sound2", "mkSum_pair", "sumRooted_lt", "tree_sound",
+    "blockHom_proj", "den_unitEntry", "combineSum_sound", "mkSumU_pair_sound", "combineSum_missing_missing",
+    "combineSum_mkSumU_sound", "sumMergeBlocksInner_sound", "sumMergeBlocks_sound", "combineChainEntry_sound",
+    "combineChain_sound", "chainMergeBlock_sound",
 )]
 RULE = ("random construction scripts (typed generator over 8 small domains, 14 leaves with independently known exact "
         "matrices, scaling/diagonal/partial-space diagonal/null/block-diagonal/sandwich/InversionEnabler, combined with "
@@ -177,7 +184,7 @@ def gen(W, rng, d, t, depth):
     raise AssertionError(k)
 
 
-def gen_targeted(W, rng):
+def gen_targeted(W, rng, kind=None):
     """small scripts aimed at one rewriting rule each (DESIGN §5 C01 'Search'): scaling absorbed into a (negated) diagonal of a
     sum, real/complex scalings collected in a chain, diagonals with pending transformations merged in chains and sums, different
     sampling dtypes, block-diagonals with missing keys, sandwiches with scaling buns, flipped chains"""
@@ -213,8 +220,20 @@ def gen_targeted(W, rng):
 
     def bin_(op, a, b):
         return dict(op=op, a=a, b=b, d=d, t=d)
-    kind = rng.choice(["sum-absorb", "sum-absorb", "sum-diags", "chain-scal", "chain-scal", "chain-diags", "flip-chain",
-                       "sandwich-scal", "block", "block", "neg-single"])
+    kind = kind or rng.choice(["sum-absorb", "sum-absorb", "sum-diags", "chain-scal", "chain-scal", "chain-diags", "flip-chain",
+                               "sandwich-scal", "block", "block", "block", "neg-single", "enabler-chain"])
+    if kind == "enabler-chain":
+        # InversionEnabler around a Hermitian positive definite CHAIN that advertises only TIMES and ADJOINT_INVERSE_TIMES:
+        # ADJOINT_TIMES / INVERSE_TIMES are then solved numerically with `chain._flip_modes(3)` / `_flip_modes(1)`
+        b, c = W.spd_chain_leaves
+        ch = dict(op="matmul", a=dict(op="leaf", id=b, d=0, t=0), b=dict(op="leaf", id=c, d=0, t=0), d=0, t=0)
+        e = dict(op="invEnabler", a=ch, d=0, t=0)
+        r = rng.random()
+        if r < 0.3:
+            e = dict(op="matmul", a=e, b=atom_diag(W, rng, 0), d=0, t=0)
+        elif r < 0.5:
+            e = dict(op="adjoint", a=e, d=0, t=0)
+        return e
     if kind == "sum-absorb":
         # X ± D ± c (in random order and nesting): the summed scaling goes into the first diagonal with its sign
         terms = [other(), diag(), scal()] + ([scal()] if rng.random() < 0.4 else []) + ([diag()] if rng.random() < 0.3 else [])
@@ -257,11 +276,27 @@ def gen_targeted(W, rng):
         return dict(op="sandwich", bun=scal(cplx=rng.random() < 0.6), cheese=rng.choice([None, diag(), other()]), dt=dt, d=d, t=d)
     if kind == "neg-single":
         return bin_("sub", scal(False), diag()) if rng.random() < 0.5 else dict(op="neg", a=bin_("add", diag(), diag()), d=d, t=d)
-    # block-diagonals with missing keys meeting in chains and sums
-    a, b = gen_block(W, rng, 5, 0), gen_block(W, rng, 5, 0)
-    e = dict(op=rng.choice(["matmul", "add", "sub"]), a=a, b=b, d=5, t=5)
-    if rng.random() < 0.4:
-        e = dict(op=rng.choice(["matmul", "add", "sub"]), a=e, b=gen_block(W, rng, 5, 0), d=5, t=5)
+    # block-diagonals with missing keys meeting in chains, sums and differences: every pattern of missing keys in the two
+    # operands is produced, in particular the SAME key missing in both (missing ± missing = 2·id resp. 0, missing @ missing = id),
+    # also below adjoint / inverse / further combinations
+    def blk(missing):
+        subs = W.multi[5]
+        ents = [None if i in missing else gen(W, rng, sd, sd, rng.choice([0, 0, 1])) for i, sd in enumerate(subs)]
+        return dict(op="block", dom=5, subdoms=subs, ents=ents, d=5, t=5)
+    patterns = [((0,), (0,)), ((1,), (1,)), ((0,), (1,)), ((1,), (0,)), ((0, 1), (0,)), ((1,), (0, 1)), ((0, 1), (0, 1)),
+                ((), (0,)), ((1,), ()), ((), ())]
+    weights = [6, 6, 2, 2, 3, 3, 2, 1, 1, 1]
+    ma, mb = rng.choices(patterns, weights)[0]
+    e = dict(op=rng.choice(["matmul", "add", "sub", "add", "sub"]), a=blk(ma), b=blk(mb), d=5, t=5)
+    r = rng.random()
+    if r < 0.25:
+        e = dict(op=rng.choice(["matmul", "add", "sub"]), a=e, b=blk(rng.choice([(), (0,), (1,)])), d=5, t=5)
+    elif r < 0.4:
+        e = dict(op=rng.choice(["adjoint", "inverse"]), a=e, d=5, t=5)
+    elif r < 0.5:
+        e = dict(op="scale", a=e, c=gj(rng.choice(SCALARS[1:])), d=5, t=5)
+    elif r < 0.6:
+        e = dict(op="matmul", a=atom_scaling(W, rng, 5), b=e, d=5, t=5)
     return e
 
 
@@ -543,10 +578,13 @@ def run(ctx):
     W = world()
     check_tables(ctx)
     cases = load_corpus()
-    n = ctx.n(260, 2500)
+    n = ctx.n(200, 2500)
     for i in range(n):
         depth = ctx.rng.choice([1, 2, 2, 3] if ctx.quick else [1, 2, 3, 3, 4, 5])
-        if i % 5 in (1, 3):
+        if i % 10 == 7:
+            # two block-diagonal operators with every pattern of missing keys (same key missing in both: 2·id, 0, id)
+            cases.append(dict(script=gen_targeted(W, ctx.rng, kind="block"), valid=True, targeted=True))
+        elif i % 5 in (1, 3):
             cases.append(dict(script=gen_targeted(W, ctx.rng), valid=True, targeted=True))
         else:
             cases.append(gen_case(W, ctx.rng, depth, malformed=(i % 12 == 11)))
@@ -556,6 +594,9 @@ def run(ctx):
     for c, r, m in zip(cases, reals, models):
         ctx.stat("top:" + c["script"]["op"])
         ctx.stat("valid" if c.get("valid", True) else "malformed")
+        if "error" not in m:
+            # is this script inside the scope of the Lean theorem `tree_sound` (computed by the model driver)?
+            ctx.stat("tree_sound:covered" if m.get("tree_sound_covers") else "tree_sound:outside-scope")
         if "error" in r:
             ctx.stat("impl-error:" + r["error"])
         else:
